@@ -695,7 +695,7 @@ def decorate(draw, prog, abi=True, rename=True, disable=True, density=4, namespa
     return placed
 
 
-def add_trait(draw, prog):
+def add_trait(draw, prog, name="DvTrait"):
     """kotlin only (the one backend with trait support): a bridged trait whose methods take primitives / enums / structs, and a struct
     method taking `impl DvTrait`"""
     mod = prog["modules"][0]
@@ -716,12 +716,12 @@ def add_trait(draw, prog):
         params = [["a%d" % j, ty()] for j in range(draw(st.integers(0, 3)))]
         ret = draw(st.sampled_from([None, ["prim", "i32"], ["prim", "u8"], ["prim", "f64"]]))
         methods.append({"name": "go%d" % i, "params": params, "ret": ret})
-    prog.setdefault("traits", []).append({"name": "DvTrait", "methods": methods})
-    text = "pub trait DvTrait { " + " ".join("fn %s(&self%s)%s;" % (
+    prog.setdefault("traits", []).append({"name": name, "methods": methods})
+    text = "pub trait %s { " % name + " ".join("fn %s(&self%s)%s;" % (
         m["name"], "".join(", %s: %s" % (n, ir.rs_type(t)) for n, t in m["params"]), (" -> " + ir.rs_type(m["ret"])) if m["ret"] else "") for m in methods) + " }"
     mod.setdefault("raw_items", []).append(text)
     host = draw(st.sampled_from(hosts))
-    host["impls"].append({"attrs": [], "methods": [{"name": "dv_use_trait", "attrs": [], "lifetimes": [], "self": ["val"], "params": [["t", ["raw", "impl DvTrait"], []]], "ret": ["prim", "u8"]}]})
+    host["impls"].append({"attrs": [], "methods": [{"name": "dv_use_%s" % name.lower(), "attrs": [], "lifetimes": [], "self": ["val"], "params": [["t", ["raw", "impl " + name], []]], "ret": ["prim", "u8"]}]})
     ir.default_order(mod)
 
 
